@@ -169,7 +169,128 @@ func (g *Gen) totalCall() Ev {
 			e.setDec("x", x)
 		}
 	}
+	if g.r.Intn(8) == 0 {
+		e = g.totalConv(x)
+	}
 	return e
+}
+
+// the conversion entry points that take or fill caller-owned big values, and the scanners
+func (g *Gen) totalConv(x d128.Decimal) Ev {
+	bits := []int{0, 1, 63, 64, 65, 127, 128, 129, 130, 160, 192, 200, 255, 256, 257, 300, 1000}[g.r.Intn(17)]
+	v := new(big.Int)
+	if bits > 0 {
+		v.Rand(g.r, new(big.Int).Lsh(big.NewInt(1), uint(bits)))
+		if g.r.Intn(3) == 0 {
+			v.Lsh(big.NewInt(1), uint(bits))
+		}
+		if g.r.Intn(4) == 0 { // long runs of decimal zeros: the digit-stripping loops
+			v.Mul(randDigits(g.r, 1+g.r.Intn(30)), pow10(g.r.Intn(70)))
+		}
+	}
+	if g.r.Intn(2) == 0 {
+		v.Neg(v)
+	}
+	switch g.r.Intn(9) {
+	case 0, 1:
+		return Ev{"op": "FromInt", "v": bigN(v)}
+	case 2:
+		den := new(big.Int).Rand(g.r, new(big.Int).Lsh(big.NewInt(1), uint(1+g.r.Intn(200))))
+		if den.Sign() == 0 {
+			den.SetInt64(1)
+		}
+		return Ev{"op": "FromRat", "num": bigN(v), "den": bigN(den)}
+	case 3:
+		f := new(big.Float).SetPrec(uint([]int{1, 24, 53, 113, 200}[g.r.Intn(5)])).SetInt(v)
+		f.SetMantExp(f, g.r.Intn(801)-400)
+		return Ev{"op": "FromFloat", "f": bigFloatRec(f)}
+	case 4:
+		return Ev{"op": "FromFloat64", "f": f64Rec(g.f64())}
+	case 5:
+		e := Ev{"op": "Float", "rprec": []int{-1, 0, 1, 53, 113, 200}[g.r.Intn(6)]}
+		kind, _, c, _ := unmk(x)
+		if kind != 0 || c == nil {
+			c = randCoef(g.r)
+		}
+		e.setDec("x", mk(g.r.Intn(2) == 0, c, g.r.Intn(81)-40))
+		return e
+	case 6:
+		e := Ev{"op": "Decompose", "bufcap": []int{-1, 0, 8, 15, 16, 17, 64}[g.r.Intn(7)]}
+		e.setDec("x", x)
+		return e
+	case 7:
+		b := make([]byte, g.r.Intn(24))
+		const alpha = " \t\n+-.eE_0123456789infaNIxX"
+		for i := range b {
+			b[i] = alpha[g.r.Intn(len(alpha))]
+		}
+		e := Ev{"op": "ScanStream", "s": ints(b), "k": 1 + g.r.Intn(3)}
+		e.setDec("prev", mk(false, big.NewInt(777), -3))
+		return e
+	default:
+		ty := []string{"int64", "int32", "uint64", "uint32"}[g.r.Intn(4)]
+		raw := g.r.Uint64()
+		var n *big.Int
+		switch ty {
+		case "int64":
+			n = big.NewInt(int64(raw))
+		case "int32":
+			n = big.NewInt(int64(int32(raw)))
+		case "uint64":
+			n = new(big.Int).SetUint64(raw)
+		default:
+			n = new(big.Int).SetUint64(uint64(uint32(raw)))
+		}
+		return Ev{"op": "FromInt64", "ty": ty, "v": bigN(n)}
+	}
+}
+
+// every unary entry point on every (coefficient class x stored exponent class), both signs: panics hide in the
+// combination of a particular entry point with a particular exponent field (0, the 19-digit steps, the range ends)
+func (g *Gen) totalGrid(share float64) {
+	one := big.NewInt(1)
+	coefs := []*big.Int{big.NewInt(0), big.NewInt(1), big.NewInt(9), pow10(18), new(big.Int).Lsh(one, 64), pow10(33), pow10(34), new(big.Int).Lsh(one, 113), cMax}
+	exps := []int{0, 1, -1, 19, -19, 20, -20, 34, -34, 35, -35, eMin, eMax}
+	ops := []string{"Neg", "Abs", "IsZero", "IsNaN", "Signbit", "Sign", "Canonical", "String", "MarshalBinary", "MarshalJSON", "Frexp",
+		"Exp", "Exp2", "Exp10", "Expm1", "Log", "Log2", "Log10", "Log1p", "Sqrt", "Cbrt", "PkgRound", "PkgTrunc", "PkgCeil", "PkgFloor", "Float64", "Float32", "Rat", "Int",
+		"ToInt:int64", "ToInt:int32", "ToInt:uint64", "ToInt:uint32", "Float", "Decompose", "Round", "Ceil", "Floor", "Ldexp", "Format", "Sprintf"}
+	n := len(coefs) * len(exps) * len(ops)
+	g.gridRun(n, share, func(i int) {
+		c := coefs[i%len(coefs)]
+		i /= len(coefs)
+		ex := exps[i%len(exps)]
+		op := ops[i/len(exps)]
+		x := mk(g.r.Intn(2) == 0, c, ex)
+		var e Ev
+		switch {
+		case strings.HasPrefix(op, "ToInt:"):
+			e = Ev{"op": "ToInt", "ty": op[6:]}
+		case op == "Float":
+			if ex == eMin || ex == eMax { // 2^20000-sized quantities in the oracle: kept for the random part
+				return
+			}
+			e = Ev{"op": "Float", "rprec": []int{-1, 53, 113}[g.r.Intn(3)]}
+		case op == "Decompose":
+			e = Ev{"op": "Decompose", "bufcap": []int{-1, 16}[g.r.Intn(2)]}
+		case op == "Round" || op == "Ceil" || op == "Floor":
+			e = Ev{"op": op, "wm": true, "m": g.r.Intn(6)}
+			setInt(e, "dp", []int{0, 1, -1, 34, -34, 6176, -6111}[g.r.Intn(7)])
+		case op == "Ldexp":
+			e = Ev{"op": "Ldexp"}
+			setInt(e, "exp", []int{0, 1, -1, 40, -40, 12287, -12287}[g.r.Intn(7)])
+		case op == "Format":
+			e = Ev{"op": "Format", "verb": int("eEfgG"[g.r.Intn(5)])}
+			setInt(e, "prec", []int{-1, 0, 1, 34, 40}[g.r.Intn(5)])
+		case op == "Sprintf":
+			e = Ev{"op": "Sprintf", "spec": ints([]byte([]string{"v", ".3e", "+08.2f", "g", "-12.5G", "#.0f", "40.35e"}[g.r.Intn(7)]))}
+		case (op == "Rat" || op == "Int" || op == "Float64" || op == "Float32") && (ex == eMin || ex == eMax) && g.r.Intn(4) != 0:
+			return
+		default:
+			e = Ev{"op": op}
+		}
+		e.setDec("x", x)
+		g.emitDet(e)
+	})
 }
 
 // a pure call on shared operands for the concurrent phase (no SetMode, nothing that writes shared state)
@@ -298,6 +419,7 @@ func genC20(g *Gen) {
 	g.setMode(0)
 	budget := g.w.max
 	g.w.max = budget / 2
+	g.totalGrid(0.5)
 	for !g.w.full() {
 		if g.r.Intn(40) == 0 {
 			g.setMode(g.r.Intn(6))
